@@ -239,6 +239,13 @@ func ReadAllRecords(segkey string, cname string) (map[uint16][][]byte, error) {
 	blockToRecords := make(map[uint16][][]byte)
 
 	for blockNum := range allBmi.AllBmh {
+		// block numbers come from the block summary file, which carries no checksum
+		if int(blockNum) >= len(blockSummaries) {
+			log.Errorf("ReadAllRecords: block %v has no block summary (%v summaries); segkey=%v, cname=%v",
+				blockNum, len(blockSummaries), segkey, cname)
+			return nil, ErrInvalidMetadata
+		}
+
 		_, err := fileReader.readBlock(blockNum)
 		if err != nil {
 			return nil, ErrReadBlock
@@ -544,6 +551,12 @@ func (sfr *SegmentFileReader) ReadDictEnc(buf []byte, blockNum uint16) error {
 	// read num of dict words
 	numWords := utils.BytesToUint16LittleEndian(buf[idx : idx+2])
 	idx += 2
+
+	if int(blockNum) >= len(sfr.blockSummaries) {
+		log.Errorf("SegmentFileReader.ReadDictEnc: block %v has no block summary (%v summaries); file=%v",
+			blockNum, len(sfr.blockSummaries), sfr.fileName)
+		return ErrInvalidMetadata
+	}
 
 	sfr.deTlv = utils.ResizeSlice(sfr.deTlv, int(numWords))
 	sfr.deRecToTlv = utils.ResizeSlice(sfr.deRecToTlv, int(sfr.blockSummaries[blockNum].RecCount))
